@@ -27,7 +27,7 @@ import (
 func main() {
 	prop := flag.String("prop", "C02", "C02|C13 (only changes the report header)")
 	only := flag.String("only", "", "run only the schedule with this id (replay)")
-	families := flag.String("family", "", "comma separated list of schedule families to run (default: all): exhaustive scripted slow exact closerace random baseline big serverfirst")
+	families := flag.String("family", "", "comma separated list of schedule families to run (default: all): exhaustive scripted slow exact mtu muxstall closerace random baseline big serverfirst")
 	serverFirst := flag.Int("serverfirst", 0, "number of extra fault-free schedules in which the server application writes >= 17 fragments immediately after Accept (race fixed by fixes/C02-server-write-before-open-response.diff; oracle sig server-write-overtakes-open-response)")
 	mutate := flag.String("mutate", "", "self-test of the oracle: corrupt the recorded observation of the first suitable schedule (retx|ack|gap|bytes)")
 	r := vh.Start("c02")
@@ -92,6 +92,9 @@ func main() {
 		d := r.Rep.Distribution
 		r.Count("schedule:" + sc.Family)
 		r.Count(fmt.Sprintf("mtu:%d", sc.MTU))
+		if sc.serverMTU() != sc.MTU {
+			r.Count("schedules-with-different-client-and-server-mtu")
+		}
 		if sc.LEMode > 0 {
 			r.Count("low-entropy-schedules")
 		}
@@ -135,7 +138,7 @@ func main() {
 			if len(sc.Sessions) > 1 {
 				multi = "multi"
 			}
-			r.Distinct(fmt.Sprintf("%s|%s|%d|%s|%s|%s|%s", sc.Family, sc.faultName(), sc.MTU, s.Shape, fw, le, multi))
+			r.Distinct(fmt.Sprintf("%s|%s|%d/%d|%s|%s|%s|%s", sc.Family, sc.faultName(), sc.MTU, sc.serverMTU(), s.Shape, fw, le, multi))
 		}
 		fmt.Fprintf(lg, "%s %s fault=%s mtu=%d le=%d lat=%dms loss=%d dup=%d reorder=%d sessions=%d bytes=%d datagrams=%d drops=%d dups=%d delays=%d retx=%d win0=%d reopen=%d forced=%d fired=%d/%d complete=%d/%d timedout=%v virtual=%v wall=%dms lines=%d stalls=%d variant=%d failures=%v\n",
 			sc.ID, sc.Family, sc.faultName(), sc.MTU, sc.LEMode, sc.LatencyMs, sc.LossPct, sc.DupPct, sc.ReorderPct, len(sc.Sessions), sc.totalBytes(),
@@ -209,6 +212,28 @@ func main() {
 	}
 	for i, k := range exactKinds {
 		runOne(g.exact(i%2 == 0, k))
+	}
+	// the two ends configured with different legal MTUs, both orders and a middle value, fault-free and under loss
+	pairs := [][2]int{{1280, 1500}, {1500, 1280}, {1400, 1280}, {1280, 1400}, {1500, 1400}, {1400, 1500}}
+	reps := 1
+	if thorough {
+		reps = 8
+	}
+	for rep := 0; rep < reps; rep++ {
+		for i, pr := range pairs {
+			runOne(g.mtuPair(pr[0], pr[1], false))
+			if thorough || i < 3 {
+				runOne(g.mtuPair(pr[0], pr[1], true))
+			}
+		}
+	}
+	// several sessions on one underlay, one of them flooding a peer that does not read
+	nMux := 3
+	if thorough {
+		nMux = 8
+	}
+	for i := 0; i < nMux; i++ {
+		runOne(g.muxStall(i%2 == 0))
 	}
 	// Close while a Write is in progress and the output loop is inside a slow WriteTo
 	nRace := 600
@@ -297,7 +322,7 @@ func main() {
 		"(x) the receive window closes EXACTLY (one-segment messages, the last ones paced one per round trip, nothing in flight when the backlog reaches segmentTreeCapacity; the receiving application reads only after its endpoint advertised window 0) so that only the receiver's heartbeat ack can reopen it; " +
 		"(r) close races: the client application calls Close while a client Write is in progress and the output loop sits in a slow WriteTo of the wrapped client socket (holding the output lock), GOMAXPROCS 2; these sessions are judged on safety only; " +
 		"(c) sustained random loss 1..40 %, duplication 0..10 %, reordering 0..30 %, latency 1..50 ms under the fairness bounds in notes.fairness; plus fault-free, idle (heartbeat) and slow-reader " +
-		"(receive window closes and reopens) schedules, MTU in {1280,1281,1350,1400,1499,1500}, low-entropy patterns, 1..4 sessions per underlay, request/response and concurrent duplex traffic, " +
+		"(receive window closes and reopens) schedules, MTU in {1280,1281,1350,1400,1499,1500} chosen per end (a third of the schedules give client and server different MTUs; family mtu runs the pairs 1280/1500, 1500/1280 and the middle value 1400 in both orders with bulk data in both directions, fault-free and under loss), family muxstall (two sessions on one underlay: one floods a peer that does not read for 40 s, the other does paced echo exchanges each of which must complete within 6 s, then the first completes too), low-entropy patterns, 1..4 sessions per underlay, request/response and concurrent duplex traffic, " +
 		"first Write <= 1024 bytes and > 1024 bytes. The server application starts 1 ms (virtual) after Accept, except in the optional -serverfirst schedules. All sizes, contents and fault choices derive from -seed. A class (distinct_nontrivial) is (family, fault kind, MTU, traffic shape, first-write class, " +
 		"low entropy, single/multi session). The oracle checks each session directly: bytes read = bytes written per direction in order (prefix at all times), completion within the virtual-time budget, " +
 		"no Write/Read error, unAckSeq never ahead of delivered sequenced segments, identical content of all transmissions of a seq, gapless first transmissions."
